@@ -724,11 +724,11 @@ func e5Compare(c *Collector, r *E5Row, key, pos string, got, want *Sym, hint, wh
 	}
 	res := compareSyms(got, want, hint)
 	if res.Equal {
-		c.Ob(r.Props, "E5.decision", key, Discharged, fmt.Sprintf("%s: code ≡ table on %d valuations of %d terms [%s]; code term: %s", what, res.Evaluations, len(res.Terms), clip(strings.Join(res.Terms, "; "), 300), clip(got.String(), 200)), pos, true)
+		c.Ob(r.Props, "E5.decision", key, Discharged, fmt.Sprintf("%s: code ≡ table on %d valuations of %d terms%s [%s]; code term: %s", what, res.Evaluations, len(res.Terms), map[bool]string{true: " (product too large: every pair of terms enumerated completely)", false: ""}[res.Truncated], clip(strings.Join(res.Terms, "; "), 300), clip(got.String(), 200)), pos, true)
 		return true
 	}
 	c.Ob(r.Props, "E5.decision", key, Violated, fmt.Sprintf("%s: code and table differ at [%s]: code gives %s, table gives %s; code term: %s; table term: %s",
-		what, clip(res.Witness, 300), res.Left, res.Right, clip(got.String(), 300), clip(want.String(), 300)), pos, false)
+		what, clip(res.Witness, 1500), res.Left, res.Right, clip(got.String(), 300), clip(want.String(), 300)), pos, false)
 	return true
 }
 
